@@ -78,7 +78,8 @@ prop("C08", "proof", "Wrap as a derived machine of the parser model; ReadFrom ch
      "assumes readers never return (0, nil) forever", GEN_RULE, "§8 C08")
 prop("C09", "proof", "suffix.Sort is certified per input against the Lean specification saSpec (sorted permutation, proved unique); LCP (Kasai) and InvertSA are modelled exactly and proved correct in Lean",
      "Lean 4 proof (Kasai, InvertSA) + per-input certification of Sort against a verified specification",
-     [S("s-suffix", 300, 5000, ["s.sort", "s.lcp", "s.sort.long"]), S("s-exhaustive", 256, 2048, ["s.sort"])],
+     [S("s-suffix", 300, 5000, ["s.sort", "s.lcp", "s.sort.long"]), S("s-exhaustive", 256, 2048, ["s.sort"]),
+      S("s-budget", 400, 8000, ["s.budget.fail", "s.budget.partialcopy"])],
      "DivSufSort internals are not modelled; forced thresholds 1..3 via the verif hook", GEN_RULE, "§8 C09")
 prop("C10", "proof", "scanLCP modelled as the exact stack machine; soundness, completeness/uniqueness and children-first proved in Lean; arbitrary LCP profiles and real texts compared incl. callback order",
      "Lean 4 invariant proof of the stack machine + differential correspondence",
